@@ -205,12 +205,15 @@ Fixpoint run (v : version) (st : state) (ls : list label) : option state :=
 Definition negotiating (m : mpc) : bool :=
   match m with MPoll | MRelay | MMakePC | MAnswer | MSelect | MGiveUp | MClosing => true | _ => false end.
 
-(* sessions being negotiated by runSession or served by a handler *)
+(* clients being negotiated with by runSession or served by a handler: a background session counts
+   while its handler serves (HRun); the current session counts while its handler serves, or while
+   runSession is in a negotiation stage and no handler has taken the session over yet *)
 Definition serving (c : sess) : bool := match hp c with HRun => true | _ => false end.
+Definition handler_pending (c : sess) : bool := match hp c with HNone | HStart => true | _ => false end.
 Definition n_active (st : state) : nat :=
   sum (map (fun c => if serving c then 1 else 0) (bg st)) +
   match cur st with
-  | Some c => if serving c || (negotiating (mn st) && negb (mrel c)) then 1 else 0
+  | Some c => if serving c || (negotiating (mn st) && handler_pending c) then 1 else 0
   | None => 0
   end.
 
